@@ -299,7 +299,7 @@ def run_case(case, reports=False, keep_objects=False):
             from behave.api.async_step import async_run_until_complete
 
             # (both forms of the decorator: bare, and with a timeout that is never reached)
-            @(async_run_until_complete(timeout=30) if cfg.get("async_timeout") else async_run_until_complete)
+            @(async_run_until_complete(timeout=3600) if cfg.get("async_timeout") else async_run_until_complete)
             async def realise_async(ctx, org, k):
                 import asyncio
                 await asyncio.sleep(0)
